@@ -21,9 +21,11 @@ func init() {
 			"(R4) GetNextBlock bounds the decoded length in the unsigned domain, with the prefix length accounted for, before it is converted, and returns data[n:n+l] with count n+l; PrependLength prefixes len(data). " +
 			"(R5) narrowing integer conversions in package varint happen only after a range test of the value. " +
 			"(R6) every result of PrependLength is built from Pack64(len(data)): no path returns the bare input (an empty block must still carry its zero length prefix to be readable by GetNextBlock). " +
+			"(R7) the container's callers of the varint codec keep its contract (= C16-R3 block-size decision table, C16-R4 peek windows of the GetNextN* readers cover the longest encoding of their width). " +
 			"NOT decided: value exactness of encoding/binary itself, inverse property for all values (arithmetic).",
 		Rules: []ruleFn{c10R1, c10R2, c10R3, c10R4,
-			func(c *Ctx, r *Report) { narrowingRule(c, r, "C10-R5", []string{"formats/varint"}, map[string]string{}) }, c10R6},
+			func(c *Ctx, r *Report) { narrowingRule(c, r, "C10-R5", []string{"formats/varint"}, map[string]string{}) }, c10R6,
+			borrowRule(c16R3, "C16-R3", "C10-R7", 2, nil), borrowRule(c16R4, "C16-R4", "C10-R7", 4, nil)},
 	})
 }
 
